@@ -18,6 +18,7 @@ TECHNIQUE = 'runtime monitor: parser error() callback + token spans as ground tr
 RULE = ('valid statements (corpus + templates) with one token deleted / duplicated / replaced / inserted or truncated, re-laid-out '
         'over several lines with indentation, blank lines, -- and /* */ comments, tabs, leading white space; illegal characters '
         'spliced in; non-trivial = rejected input with a located error; distinct by (layout class, offending token type, text)')
+RULE += '; also: CRLF layouts, exotic separators, 30 000 cases in the quick tier'
 ASSUMPTIONS = ['the first token the grammar cannot accept = the token of the parser\'s first error() call',
                'rejections raised by a grammar action (no error() call, e.g. "Duplicate LIMIT clause") carry no location and are out of scope',
                'reproduced lines may differ from the source in leading/inner white space and comments']
